@@ -65,6 +65,14 @@ let () =
             for _ = 1 to nw do
               expect "w"; ignore (next ()); let k = int () in for _ = 1 to 2 * k do ignore (next ()) done; rep ()
             done;
+            (* RobustPaths (section absent in older payloads): same repetition format as the FlexPaths *)
+            if !pos < Array.length toks && toks.(!pos) = "V" then begin
+              expect "V"; let nv = int () in
+              for _ = 1 to nv do
+                expect "v"; let ne = int () in for _ = 1 to 2 * ne do ignore (next ()) done;
+                let k = int () in for _ = 1 to 2 * k do ignore (next ()) done; rep ()
+              done
+            end;
             expect "F"; let nf = int () in for _ = 1 to nf do poly () done;
             expect "R"; let nr = int () in
             for _ = 1 to nr do
